@@ -64,9 +64,15 @@ class ErrSampler(object):
                                           is not None else '')
 
     def sample(self):
-        return np.asarray(self.model.sample(
-            self.call_params, self.ybar, n_samples=self.n_samples, seed=SEED),
-            dtype=float)
+        par = np.array(self.call_params, dtype=float)
+        yb = np.array(self.ybar, dtype=float)
+        p0, y0 = par.copy(), yb.copy()
+        r = np.asarray(self.model.sample(
+            par, yb, n_samples=self.n_samples, seed=SEED), dtype=float)
+        # the arrays handed over are the caller's
+        self.mutated = getattr(self, 'mutated', False) or not (
+            np.array_equal(par, p0) and np.array_equal(yb, y0))
+        return r
 
     def expected_shape(self):
         return (len(self.ybar), self.n_samples)
@@ -101,9 +107,15 @@ class PopSampler(object):
         return {'covariates': c}
 
     def sample(self):
-        return np.asarray(self.model.sample(
-            self.top, n_samples=self.n_samples, seed=SEED, **self._kw()),
-            dtype=float)
+        top = self.top.copy()
+        cov = None if self.cov is None else self.cov.copy()
+        kw = {} if cov is None else {'covariates': cov}
+        r = np.asarray(self.model.sample(
+            top, n_samples=self.n_samples, seed=SEED, **kw), dtype=float)
+        self.mutated = getattr(self, 'mutated', False) or not (
+            np.array_equal(top, self.top) and (
+                cov is None or np.array_equal(cov, self.cov)))
+        return r
 
     def expected_shape(self):
         return (self.n_samples, self.d)
@@ -173,6 +185,11 @@ def w_sampler(case):
     n_nodes = case['n_nodes']
     S0, seam0 = run_with(sm)
     ntr = 1
+    if getattr(sm, 'mutated', False):
+        viol.append({'sub': 'inputs', 'message': 'sampling modified the parameter / '
+                     'model-output / covariate arrays passed in (%s)' % lab,
+                     'expected': 'unchanged', 'observed': 'changed',
+                     'behaviour': 'input_mutation'})
     if S0.shape != sm.expected_shape():
         viol.append({'sub': 'shape', 'message': 'sample has the wrong shape (%s)'
                      % lab, 'expected': list(sm.expected_shape()),
